@@ -33,7 +33,7 @@ fn main() {
                 "C02" => vec!["ungraph", "sync_ungraph"],
                 _ => vec!["digraph", "sync_digraph", "ungraph", "sync_ungraph"],
             };
-            let total_hist = args.num("histories", if thorough { 20000 } else { 400 });
+            let total_hist = args.num("histories", if thorough { 150000 } else { 4000 });
             let cfg = seq::SeqCfg {
                 prop: prop.clone(),
                 nodes: args.num("nodes", 3) as usize,
